@@ -49,6 +49,9 @@ def seeded_table():
                 others = " (also: %s)" % ", ".join(o)
         caught = "yes" if m["property"] in (m.get("caught_by") or []) \
             else "**no**"
+        if m.get("obsolete_after_fix"):
+            caught += " (obsolete: the behaviour it relied on was a defect, " \
+                "since repaired - see meta.json)"
         rows.append("| %s | %s | %s | %s | %s%s |" % (
             name, m["property"], short, "yes" if m.get("confirmed") else
             "no", caught, others))
